@@ -11,6 +11,7 @@ func init() {
 const survMu = "protocol/surveyor.socket.Mutex"
 
 func runC07(p *Prog, r *Report) {
+	lockBalance(p, r, "C07.8/E1", "protocol/surveyor", "protocol/xsurveyor", "protocol/respondent")
 	q := NewQ(p, r)
 	R := "C07.1/response-matching"
 	r.Describe(R, "surveyor receiver: id from the moved word (length-checked), comma-ok lookup in surveys under the lock, non-blocking send to that survey's queue in the same critical section, otherwise freed")
@@ -108,6 +109,9 @@ func runC07(p *Prog, r *Report) {
 			}
 		}
 		r.Check(len(snd) == 1 && strings.HasPrefix(snd[0].What, "φpipes[") && len(snd[0].Args) == 2 && snd[0].Args[1] == "nonblocking", R, "broadcast-to-snapshot", snd.Pos(p), "non-blocking send to every pipe of the snapshot", "the survey is not offered to every pipe of the snapshot: "+argsOf(snd))
+		if len(snd) == 1 {
+			fanoutNoBypass(p, r, R, "broadcast", snd[0].In, nil, "")
+		}
 		cl := sm.Ev("call", "mangos.(*Message).Clone")
 		r.Check(len(cl) == 1 && len(snd) == 1 && cl[0].In.Block() == snd[0].In.Block(), R, "clone-per-pipe", cl.Pos(p), "one Clone per pipe", "not one Clone per pipe")
 	}
